@@ -9,6 +9,7 @@ CONSTANTS
   Feat = {@FEAT@}
   Dev = {@DEV@}
   LateConn = {@LATE@}
+  TimerEp = "@TIMEREP@"
   MaxDepth = @DEPTH@
   MaxNoops = @NOOPS@
 INVARIANTS Emit PrefixInv EofInv CountInv TimerOnlyWhenIdle
